@@ -174,7 +174,7 @@ def report(prop, tier, seed, results, bounded, kf, known_by_id, wall, a):
         "samples": samples,
         "evaluations": len(obls), "distinct_nontrivial": len(names),
         "rule": "one evaluation = one SMT query (obligation, cover or canary) generated from the current /repo source; distinct by obligation name",
-        "explanation": EXPLAIN.get(prop, ""),
+        "explanation": explanation(prop),
     }
     ev = {"property_id": prop, "tier": tier, "seed": seed, "level": level, "coverage": cov,
           "assumptions": sorted(trusted), "wall_s": round(wall, 2), "violations": len(violations)}
@@ -192,7 +192,16 @@ def report(prop, tier, seed, results, bounded, kf, known_by_id, wall, a):
     return code
 
 
-LEVELS = {"C08": "other", "C15": "other", "C16": "other"}
+def explanation(prop):
+    try:
+        from specs.manifest_data import CHECKS
+        c = CHECKS.get(prop)
+        if c: return c["text"] + "  ||  trusted/assumed: " + c["note"]
+    except Exception: pass
+    return "see DESIGN.md §4 " + prop
+
+
+LEVELS = {"C08": "other", "C12": "other", "C15": "other", "C16": "other"}
 EXPLAIN = {}
 
 if __name__ == "__main__":
